@@ -28,6 +28,7 @@ EXPLANATION = (
     ' Round 7: (13) the dependency-collecting helper of CanvasCache.store() recurses into every child without widget_info; (8) a set_depends() declaration names every member of the child collection (no filter, no zip with a shorter list).'
     ' Round 8: (14) ORDER: the canvas given set_depends() is the one render() returns (no re-wrap afterwards); (15) the monitored-list overrides keep calling the wrapped super() mutator (C16.2).'
     ' Round-8 triage: (16) HIDDEN-DEP for ListBox: every 0-row item left out of the window is recorded and render() declares the record (fix 00389c3).'
+    ' (17) GUARD: a key looked up with .get() is not deleted unprotected in the same function (fix e719b72).'
 )
 NOT_DECIDED = (
     "That cached and fresh renderings are equal for all widget trees and histories (needs the value semantics of rendering); that the cascade reaches the right widgets "
